@@ -17,8 +17,8 @@ def run(tier):
     ck.cov["not_compiled_cases"] = [k for k, _, _, _ in r["compile_failed"]][:50]
     ck.cov["programs"] = r["n_progs"]
     sopts = (1, 2) if tier == "quick" else (0, 1, 2)
-    sc = semgen.stmt_cases(tier, rng)
-    r2 = semrun.judge_cases(ck, sc, opts=sopts, per=25, prefix="C01", runner=runner, label="stmts", funcs=semgen.FUNCS, nearly=semgen.GLOBALS)
+    sc = semgen.stmt_cases(tier, rng) + semgen.copy_cases(tier, rng) + semgen.ownership_cases(tier, rng)
+    r2 = semrun.judge_cases(ck, sc, opts=sopts, per=25, prefix="C01", runner=runner, label="stmts", funcs=semgen.OWN_FUNCS, nearly=semgen.OWN_GLOBALS)
     ck.cov["evaluations"] += r2["n_cases"] * len(sopts)
     ck.cov["distinct_nontrivial"] += r2["n_cases"]
     ck.cov["unspecified_skipped"] += len(r2["unspec_cases"])
@@ -27,5 +27,5 @@ def run(tier):
     for k, stage, msg, src in (r["compile_failed"] + r2["compile_failed"])[:3]:
         vlib.log("NOT COMPILED:", k, stage, msg[-300:])
     ck.sample(dict(case=cases[0].key, source_excerpt=ddp.render(semgen.batch_program(cases[:1], "s"))[-400:]))
-    ck.cov["rule"] = "operator table: every operator x admissible operand types x boundary values (each case distinct by key); quick: seeded half of the numeric tables"
+    ck.cov["rule"] = "operator table: every operator x admissible operand types x boundary values (each case distinct by key); quick: seeded half of the numeric tables; statements, compound assignments, alternative spellings, copy / aliasing arrangements, producing shape x consuming context matrix at -O1/-O2"
     return ck.finish(exhaustive=(tier == "thorough"))
